@@ -160,14 +160,14 @@ type StreamSvc struct {
 	timedOut  bool
 	newClient any
 	bound     int
-	unixDir   string       // listen on a unix domain socket in this directory instead of a TCP port
+	unixDir   string // listen on a unix domain socket in this directory instead of a TCP port
 	binds     int
 	httpc     *http.Client // the generated client's Doer when the server listens on a unix socket
 	// KeepEndpoints: one endpoint function per method and client object (operation sequences)
 	KeepEndpoints bool
 	eps           map[string]goa.Endpoint
-	mu        sync.Mutex
-	cur       *streamEx
+	mu            sync.Mutex
+	cur           *streamEx
 }
 
 // rwTap records the status and body the server wrote without upgrading, and stays a Hijacker.
